@@ -65,7 +65,7 @@ def clauses(chk, F):
                 if r.outcome_kind != 'return':
                     status, why = 'unproven', r.outcome_kind
                     continue
-                expired = any(p[0] == 'lt' and p[2] is False for p in r.preds)
+                expired = A.elapsed_vs_timeout(r.preds)[0] is False
                 if tag in ('P6', 'P38') and expired:
                     continue
                 if not r.identity or r.outputs:
@@ -73,8 +73,11 @@ def clauses(chk, F):
                         k, A.typestate_label(F, cs), 'before the timeout' if tag in ('P6', 'P38') else '(nothing pending)', scanners.describe_row(F, r))
             if tag in ('P6', 'P38') and status == 'proved':
                 ps = [p for r in rows for p in r.preds]
-                want = T.norm_pred(('cmp', 'lt', ('app', 'elapsed', (ss[6],)), ss[1]), True, cons)
-                if not ps or any((p[0], p[1]) != (want[0], want[1]) for p in ps) or {p[2] for p in ps} != {True, False}:
+                verdicts = [A.elapsed_vs_timeout(r.preds) for r in rows]
+                want_e, want_t = ('app', 'elapsed', (ss[6],)), ss[1]
+                # every path decides elapsed(arrival) < timeout (one comparison in any spelling, or the arms of a three-way cmp),
+                # about exactly these two terms, and both answers occur
+                if not ps or any(v[0] is None or (v[1], v[2]) != (want_e, want_t) for v in verdicts) or {v[0] for v in verdicts} != {True, False}:
                     status, why = 'refuted', 'poll(channel %d) does not split exactly on elapsed(arrival) < timeout: recorded %s' % (k, [T.pred_str(p) for p in ps])
             cur = (status, why, [scanners.describe_row(F, r) for r in rows[:3]])
             res_poll[shape] = _worse(res_poll[shape], cur) if shape in res_poll else cur
